@@ -55,6 +55,41 @@ func TestGovcBoundedC13FindInDir(t *testing.T) {
 		}
 		os.RemoveAll(dir)
 	}
+	// a module name with characters that mean something in a regular expression: the files
+	// of differently named modules (acme-ext, acmeXext, acme.extra) are never candidates
+	pool2 := []string{"acme.ext.yang", "acme.ext@2020-01-01.yang", "acme.ext@2018-03-04.yang", "acme-ext@2024-05-05.yang", "acmeXext@2023-01-01.yang", "acme-ext.yang", "acme.extra@2025-01-01.yang", "acme.ext@2026-01-01.yang.orig", "acme+ext@2022-02-02.yang"}
+	valid2 := map[string]bool{"acme.ext@2020-01-01.yang": true, "acme.ext@2018-03-04.yang": true}
+	for mask := 0; mask < 1<<len(pool2); mask++ {
+		dir := filepath.Join(base, fmt.Sprintf("d%d", mask))
+		os.Mkdir(dir, 0o755)
+		var present []string
+		for i, n := range pool2 {
+			if mask&(1<<i) != 0 {
+				present = append(present, n)
+				os.WriteFile(filepath.Join(dir, n), []byte("x"), 0o644)
+			}
+		}
+		want := ""
+		if mask&1 != 0 {
+			want = filepath.Join(dir, "acme.ext.yang")
+		} else {
+			var revs []string
+			for _, n := range present {
+				if valid2[n] {
+					revs = append(revs, n)
+				}
+			}
+			sort.Strings(revs)
+			if len(revs) > 0 {
+				want = filepath.Join(dir, revs[len(revs)-1])
+			}
+		}
+		evals++
+		if got := findInDir(dir, "acme.ext.yang", false); got != want {
+			fmt.Printf("GOVC-FAIL name=c13-findindir directory holding %v: findInDir(acme.ext.yang) = %q, want %q\n", present, got, want)
+		}
+		os.RemoveAll(dir)
+	}
 	// first search-path directory holding a candidate wins
 	d1, d2 := filepath.Join(base, "p1"), filepath.Join(base, "p2")
 	os.Mkdir(d1, 0o755)
@@ -69,7 +104,7 @@ func TestGovcBoundedC13FindInDir(t *testing.T) {
 	if err != nil || name != filepath.Join(d1, "foo@2020-01-01.yang") {
 		fmt.Printf("GOVC-FAIL name=c13-findindir search path [p1 p2]: findFile(foo) = %q, %v; want the candidate in the first directory\n", name, err)
 	}
-	fmt.Printf("GOVC-BOUNDED name=c13-file-selection bound=all_%d_subsets_of_%d_candidate_file_names_+_two-directory_search_path evaluations=%d distinct=%d\n", 1<<len(pool), len(pool), evals, evals)
+	fmt.Printf("GOVC-BOUNDED name=c13-file-selection bound=all_%d_subsets_of_%d_candidate_file_names,_all_%d_subsets_of_%d_for_a_name_with_a_dot,_two-directory_search_path evaluations=%d distinct=%d\n", 1<<len(pool), len(pool), 1<<len(pool2), len(pool2), evals, evals)
 }
 
 type govcHdr struct{ name, rev string }
